@@ -4,13 +4,6 @@
    The double instance of Num is built here and passed as an ordinary argument. *)
 
 
-let rec pos_to_float = function
-  | XH -> 1.0
-  | XO p -> 2.0 *. pos_to_float p
-  | XI p -> 2.0 *. pos_to_float p +. 1.0
-let z_to_float = function Z0 -> 0.0 | Zpos p -> pos_to_float p | Zneg p -> -. pos_to_float p
-let rec pos_of_int n = if n = 1 then XH else if n land 1 = 0 then XO (pos_of_int (n lsr 1)) else XI (pos_of_int (n lsr 1))
-let z_of_int n = if n = 0 then Z0 else if n > 0 then Zpos (pos_of_int n) else Zneg (pos_of_int (-n))
 let rec nat_of_int n = if n <= 0 then O else S (nat_of_int (n - 1))
 let rec int_of_nat = function O -> 0 | S n -> 1 + int_of_nat n
 let rec fpow x n = match n with O -> 1.0 | S m -> x *. fpow x m
